@@ -49,17 +49,13 @@ def indexRepeatNone (shape : Shape) (r : Nat) (d : Idx) : Idx :=
   | [] => []
 
 /-- loop `for i < len(d)`: `ret[i] = (i == axis) ? d[i] / r : d[i]` with the comparison done in `size_t` -/
-def indexRepeatAux (f : Nat → Nat) (axisU : Nat) : Nat → Idx → Idx
-  | _, [] => []
-  | i, x :: xs => (if i = axisU then f x else x) :: indexRepeatAux f axisU (i + 1) xs
-
-def indexRepeat (r : Nat) (axis : Int) (d : Idx) : Idx := indexRepeatAux (· / r) (u64 axis) 0 d
+def indexRepeat (r : Nat) (axis : Int) (d : Idx) : Idx := mapAt (· / r) axis 0 d
 
 /-- `at(where(idx < ·, cumsum(repeats)), 0)`: first position whose cumulative count exceeds `x`
     (`= length` when there is none: the C++ then reads element 0 of an empty container) -/
 def firstAbove (rs : List Nat) (x : Nat) : Nat := (cumsum rs).findIdx (fun c => decide (x < c))
 
-def indexRepeatList (rs : List Nat) (axis : Int) (d : Idx) : Idx := indexRepeatAux (firstAbove rs) (u64 axis) 0 d
+def indexRepeatList (rs : List Nat) (axis : Int) (d : Idx) : Idx := mapAt (firstAbove rs) axis 0 d
 
 /-- `view::repeat(a, r, axis)`, scalar repeats -/
 def repeatView (src : Shape) (r : Nat) (axis : Option Int) : Option IxView :=
